@@ -1594,8 +1594,36 @@ fn witness_timeout(args: &Args) {
     println!("commit(t0) -> {:?}   (COMMIT is now announced for a transaction whose ABORT was broadcast)", c.commit(t0));
 }
 
+/// `c03 witness-committing`: a commit decision handed out by recovery is later turned into an
+/// abort by abort() and by the timeout sweeper. No oracle involved.
+fn witness_committing() {
+    let who = "coord".to_string();
+    let yes = |h: u64| PrepareVote::Yes { lock_handle: h, delta: tensor_chain::consensus::DeltaVector::zero(DIM) };
+    for variant in ["abort()", "cleanup_timeouts()"] {
+        let store = TensorStore::new();
+        let c = DistributedTxCoordinator::new(ConsensusManager::default_config(), persist_config());
+        let t0 = c.begin(&who, &[0, 1]).unwrap().tx_id;
+        println!("--- {}: votes {:?} {:?}", variant, c.record_vote(t0, 0, yes(11)), c.record_vote(t0, 1, yes(12)));
+        c.save_to_store("c", &store).unwrap();
+        drop(c);
+        let c = DistributedTxCoordinator::load_from_store("c", &store, ConsensusManager::default_config(), persist_config()).unwrap();
+        let _ = c.recover();
+        println!("restart: recover(); get_pending_decisions() -> {:?}   (COMMIT is broadcast)", c.get_pending_decisions().iter().map(|(id, p)| (*id == t0, *p)).collect::<Vec<_>>());
+        if variant == "abort()" {
+            println!("abort(t0) -> {:?}; t0 now {:?}", c.abort(t0, "late client abort"), c.get(t0).map(|t| t.phase));
+        } else {
+            std::thread::sleep(Duration::from_millis(PERSIST_TIMEOUT_MS + 5));
+            println!("cleanup_timeouts() contains t0: {}; take_pending_aborts() -> {:?}   (ABORT is broadcast)", c.cleanup_timeouts().contains(&t0), c.take_pending_aborts().iter().map(|(id, r, s)| (*id == t0, r.clone(), s.clone())).collect::<Vec<_>>());
+        }
+    }
+}
+
 fn main() {
     let args = Args::parse();
+    if args.rest.iter().any(|a| a == "witness-committing") {
+        witness_committing();
+        return;
+    }
     if args.rest.iter().any(|a| a == "witness-timeout") {
         witness_timeout(&args);
         return;
